@@ -79,6 +79,17 @@ C14(E, S, line) ==
           /\ E.qtok.words[2].s - E.qtok.words[1].e = 1            \* the two parts are one separator apart (DESIGN.md 8)
           /\ Len(E.qtok.chars) = E.qtok.words[2].e /\ E.qtok.words[1].s = 0,
           InHits(E, X.rid), line, "C14", "a title word typed as two words does not find the record")
+  ELSE IF X.kind = "split_raw" THEN
+    \* the word as it is spelled in the title (symbols inside it included), typed with one separator put in at any point
+    ChkIf(/\ HasRecS(S, X.rid) /\ SmallStore(s) /\ X.widx \in 1..NWords(RecOfS(S, X.rid).tok)
+          /\ LET tok == RecOfS(S, X.rid).tok
+                 src == StripNul(SubSeq(tok.source, tok.words[X.widx].s + 1, tok.words[X.widx].e))
+             IN /\ Len(RWord(S, X.rid, X.widx)) >= 3
+                /\ \E k \in 1..(Len(src) - 1) : \E j \in {k + 1} :
+                      /\ Len(E.q) = Len(src) + 1 /\ IsSep(E.q[j])
+                      /\ SubSeq(E.q, 1, k) = SubSeq(src, 1, k) /\ SubSeq(E.q, j + 1, Len(E.q)) = SubSeq(src, k + 1, Len(src))
+                      /\ (\E i \in 1..k : IsAlnum(src[i])) /\ (\E i \in (k + 1)..Len(src) : IsAlnum(src[i])),
+          InHits(E, X.rid), line, "C14", "a title word typed with one separator inside it does not find the record")
   ELSE
     ChkIf(/\ HasRecS(S, X.rid) /\ SmallStore(s)
           /\ LET tok == RecOfS(S, X.rid).tok IN
